@@ -159,7 +159,7 @@ def run(rep):
     wbs = []
     shapes, g = corpus.gen_shapes("ok", 4)
     nforms = 30 if rep.tier == "quick" else 200
-    for i, c in enumerate(corpus.pick([s for s in shapes if len(s["rows"]) == 4], nforms, rep.seed)):
+    for i, c in enumerate(corpus.pick([s for s in shapes if len(s["rows"]) == 4 and not any(r[0] == "blank" for r in s["rows"])], nforms, rep.seed)):
         f = formgen.decorate(c["rows"], seed=rep.seed + i, feat=corpus.ALL_FEAT)
         wb = f.wb()
         wbs.append(({"shapes": c["rows"]}, wb))
